@@ -405,9 +405,13 @@ theorem root_create_led (env : Env) (root : Root) (path : Bytes) (ty : InodeType
 theorem root_createFile_led (env : Env) (root : Root) (path : Bytes) (flags perm : Nat) :
     Led ext S (Root.createFile env root path flags perm) (PostFd S) := by
   unfold Root.createFile
-  exact withParent_led env root path (fun dir name => Sys.openat dir name (flags ||| O_CREAT) perm)
+  refine withParent_led env root path (fun dir name => Root.createFileOpen dir name flags perm)
     (fun S => PostFd S) PostFd.err (fun d x S' hd h => frame_fd d x S' hd h)
-    (fun dir name S1 => openat_led dir name _ _)
+    (fun dir name S1 => ?_)
+  unfold Root.createFileOpen
+  split
+  · exact Led.throw (PostFd.err _)
+  · exact openat_led dir name _ _
 
 theorem root_removeInode_led (env : Env) (root : Root) (path : Bytes) (isDir : Bool) :
     Led ext S (Root.removeInode env root path isDir) (PostRO S) := by
